@@ -14,6 +14,12 @@ except ImportError:
     pass
 
 
+def _upper_edge(x):
+    """value strictly above x: x + 1e-6, or the next float when rounding swallows the 1e-6"""
+    x = np.asarray(x, dtype=np.float64)
+    return np.maximum(x + 1e-6, np.nextafter(x, np.inf))
+
+
 class AdaptiveBound(object):
     """adaptive bound cut for data value"""
 
@@ -86,11 +92,11 @@ class AdaptiveBound(object):
 
         """
         if base_bound is None:
-            base_bound = np.min(data), np.max(data) + 1e-6
+            base_bound = np.min(data), _upper_edge(np.max(data))
         num_lb = base_bound[0]
         bounds = []
         for j in range(1, n):
-            num_rb = np.percentile(data, j / n * 100, axis=0) + 1e-6
+            num_rb = _upper_edge(np.percentile(data, j / n * 100, axis=0))
             bounds.append((num_lb, num_rb))
             num_lb = num_rb
         bounds.append((num_lb, base_bound[1]))
@@ -157,8 +163,8 @@ class AdaptiveBound(object):
     @staticmethod
     def base_bound(data):
         """base bound for the data"""
-        lb = np.min(data, axis=-1) - 1e-6
-        rb = np.max(data, axis=-1) + 1e-6
+        lb = np.asarray(np.min(data, axis=-1), dtype=np.float64) - 1e-6
+        rb = _upper_edge(np.max(data, axis=-1))
         return (lb, rb)
 
     def get_bound_patch(self, **kwargs):
